@@ -829,34 +829,34 @@ FINDINGS = {
            'KeyError/TypeError/IndexError in the transition regime '
            '(flowsplit_ctd._calc_transition_flowsplit reads '
            "corr_constants['ff'] / ['fs']['fs'][regime])",
-    'F21': 'UCTD flow split or mixing with ENG/REH friction: TypeError at '
+    'F121': 'UCTD flow split or mixing with ENG/REH friction: TypeError at '
            'set-up in every regime (friction_uctd.calculate_bundle_friction_'
            'factor_const does not catch TypeError for corr_constants[ff] '
            'None)',
-    'F22': 'SpacerGrid with a correlation (REH/CDD) + NOV/SE2/MIT flow '
+    'F122': 'SpacerGrid with a correlation (REH/CDD) + NOV/SE2/MIT flow '
            "split: TypeError unexpected keyword 'grid' in every regime",
-    'F23': 'SpacerGrid with a correlation + CTD/UCTD flow split + friction '
+    'F123': 'SpacerGrid with a correlation + CTD/UCTD flow split + friction '
            'of another family: KeyError/TypeError in _calc_bundle_plus_grid_'
            'flow_split in every regime',
-    'F24': 'Novendstern friction factor is NaN when the interior-subchannel '
+    'F124': 'Novendstern friction factor is NaN when the interior-subchannel '
            'Reynolds number is <= 16.76 (log10 of a negative number)',
-    'F25': 'SpacerGrid given as loss_coeff is ignored by the CTD/UCTD flow '
+    'F125': 'SpacerGrid given as loss_coeff is ignored by the CTD/UCTD flow '
            "split (test on self.corr instead of self.corr_constants)",
-    'F26': 'successive-approximation split stops on the edge split alone; '
+    'F126': 'successive-approximation split stops on the edge split alone; '
            'interior/corner splits are off by up to ~1e-3..1e-2',
-    'F27': 'successive approximation does not converge near a subchannel '
+    'F127': 'successive approximation does not converge near a subchannel '
            'regime boundary (2-cycle): fallback approximation leaves the '
            'gradients unequal by up to 30 %; with a correlated grid '
            'StopIteration escapes',
-    'F28': 'CTD split with UCTD friction (or vice versa): the iterated '
+    'F128': 'CTD split with UCTD friction (or vice versa): the iterated '
            'split uses the friction correlation\'s constants and bounds '
            '(unequal gradients, NaN split next to the boundary)',
 }
 
-_PG_LABEL_ID = (('friction_family_constants', 'F28'),
-                ('grid_term_ignored_by_split', 'F25'),
-                ('approx_fallback_after_nonconvergence', 'F27'),
-                ('stopped_on_edge_split_only', 'F26'))
+_PG_LABEL_ID = (('friction_family_constants', 'F128'),
+                ('grid_term_ignored_by_split', 'F125'),
+                ('approx_fallback_after_nonconvergence', 'F127'),
+                ('stopped_on_edge_split_only', 'F126'))
 
 
 def classify(v, case):
@@ -866,7 +866,8 @@ def classify(v, case):
     in flowsplit_ctd._calc_transition_flowsplit, flow in the transition
     regime, and a triple that mixes the CTD/UCTD family with another family.
     A same-family failure, another site, another exception type or another
-    regime is not F10. The other ids are new (see FINDINGS)."""
+    regime is not F10. The other ids (F121-F128, property-prefixed) are
+    new: see FINDINGS."""
     k = v.get('key', {}) or {}
     mon = v['monitor']
     if mon == 'E_evaluable':
@@ -877,25 +878,25 @@ def classify(v, case):
             return 'F10'
         if (exc == 'TypeError' and k.get('mismatch') is True and site ==
                 'friction_uctd.py:calculate_bundle_friction_factor_const'):
-            return 'F21'
+            return 'F121'
         if (exc == 'TypeError' and k.get('grid') == 'corr'
                 and k.get('fs_ct') is False and site ==
                 'region_rodded.py:_init_static_correlated_params'):
-            return 'F22'
+            return 'F122'
         if (exc in ('KeyError', 'TypeError') and k.get('grid') == 'corr'
                 and k.get('mismatch') is True and k.get('fs_ct') is True
                 and site ==
                 'flowsplit_ctd.py:_calc_bundle_plus_grid_flow_split'):
-            return 'F23'
+            return 'F123'
         if (exc == 'StopIteration' and k.get('grid') == 'corr'
                 and k.get('mismatch') is False
                 and site == 'flowsplit_ctd.py:_iterate'):
-            return 'F27'
+            return 'F127'
         return None
     if mon == 'FF_positive_finite':
         if (k.get('ff') == 'NOV' and k.get('value') == 'nan'
                 and k.get('nov_re1_le_16_76') is True):
-            return 'F24'
+            return 'F124'
         return None
     if mon in ('PG_equal_iterated_coarse', 'PG_split_converged'):
         # (the closed-form monitors PG_equal_const / PG_equals_bundle have
@@ -911,11 +912,11 @@ def classify(v, case):
     if mon == 'X_positive':
         if (k.get('mech') == 'split_nan' and k.get('hybrid') is True
                 and k.get('approx_fallback') is True):
-            return 'F28'
+            return 'F128'
         return None
     if mon == 'MIX_nonneg_finite':
         if (k.get('mech') == 'mix_nan_from_split_nan'
                 and k.get('hybrid') is True):
-            return 'F28'
+            return 'F128'
         return None
     return None
